@@ -439,6 +439,15 @@ func (s *Synchronizer) revertTask(
 				s.logger.Error("Failed to retrieve the remote header", zap.Error(err))
 				break
 			}
+			// The comparison below decides whether a stored block is thrown away: do not base it
+			// on a block that is not even self-consistent or is not the one that was asked for.
+			if _, err = s.blockchain.SanityCheckNewHeight(
+				remoteBlock.Block, remoteBlock.StateUpdate, remoteBlock.NewClasses,
+			); err != nil || remoteBlock.Block.Number != localHeader.Number {
+				s.logger.Error("Remote block fetched for the reorg check is invalid",
+					zap.Uint64("number", localHeader.Number), zap.Error(err))
+				break
+			}
 			remoteHeader := remoteBlock.Block.Header
 
 			// Double check to avoid reverting the head if the hash is the same
